@@ -42,17 +42,25 @@ def run(ctx):
         net = "mainnet" if wi % 2 == 0 else rng.choice(["testnet", "signet", "regtest"])
         fam = "mainnet" if net == "mainnet" else "testnet"
         recs, jrecs, children = [], [], []
+        # a coordinator that writes a placeholder fingerprint: every record carries the same fingerprint, path and account index
+        # (only the xpubs differ); also one device contributing two keys
+        twin = n >= 2 and (wi == 2 or (not q and wi % 5 == 4))
         for k in range(n):
             root = hd.HDPrivateKey.from_seed(rb(32), network=net)
             note = rng.choice(["h", "'"])
-            path = "m/48%s/%d%s/%d%s/2%s" % (note, 0 if net == "mainnet" else 1, note, rng.choice([0, 1, 7]), note, note)
+            path = "m/48%s/%d%s/%d%s/2%s" % (note, 0 if net == "mainnet" else 1, note, rng.choice([0, 1, 7]) if not twin else 0, note, note)
+            if twin:
+                path = path.replace("h", "'")
             node = root.traverse(path)
             ver = bytes.fromhex(rng.choice(PUBVER[fam]) if (wi + k) % 3 == 0 else PUBVER[fam][0])
             xpub_given = node.xpub(version=ver)
             acct = rng.choice([0, 1, 2, 5, 2 ** 31 - 3]) if k else rng.choice([0, 2 ** 31 - 2])
-            recs.append({"xfp": root.fingerprint().hex(), "path": path, "xpub_parent": xpub_given, "account_index": acct})
+            xfp = root.fingerprint().hex()
+            if twin:
+                acct, xfp = 0, "00000000"
+            recs.append({"xfp": xfp, "path": path, "xpub_parent": xpub_given, "account_index": acct})
             raw = b58dec(node.xpub(version=bytes.fromhex(PUBVER[fam][0])))[:-4]
-            jrecs.append({"xfp": T(root.fingerprint().hex()), "path": T(path[1:]), "acct": le(acct), "raw78": B(raw)})
+            jrecs.append({"xfp": T(xfp), "path": T(path[1:]), "acct": le(acct), "raw78": B(raw)})
             children.append((node.pub, acct))
         d = outcome(P2WSHSortedMulti, m, [dict(r) for r in recs])
         text = str(d[1]) if d[0] == "ok" else ""
